@@ -500,6 +500,18 @@ structure FloatRT (f : F64) : Prop where
   finite : f.isFinite = true
   stays : Num.ofF64 f = .flt f
 
+/-- `FloatRT` is satisfiable: the double `1.5` (printed `1.5`) -/
+example : FloatRT (.fin false (3 * 2 ^ 51) (-52)) := by
+  refine ⟨⟨false, ['1'], some ['5'], ?_, ?_, ?_, ?_, ?_⟩, ?_, ?_, ?_⟩
+  · decide +kernel
+  · decide
+  · decide
+  · intro d hd; cases hd; decide
+  · intro h; cases h
+  · decide +kernel
+  · rfl
+  · decide +kernel
+
 /-- numbers the printer/parser pair handles -/
 def NumPrintable : Num → Prop
   | .pos n => n < 2 ^ 64
@@ -647,5 +659,312 @@ theorem printNum_head (n : Num) (hn : NumPrintable n) :
     | false =>
       simp only [signChars, Bool.false_eq_true, if_false, utf8_nil, List.nil_append]
       exact hdig ip hne hip _
+
+/-! ### M3. Strings -/
+
+theorem char_le_iff (a b : Char) : a ≤ b ↔ a.toNat ≤ b.toNat := by
+  simp [Char.le_def, UInt32.le_iff_toNat_le]
+
+theorem char_lt_iff (a b : Char) : a < b ↔ a.toNat < b.toNat := by
+  simp [Char.lt_def, UInt32.lt_iff_toNat_lt]
+
+theorem toByteArray_eq (l : List UInt8) : l.toByteArray = ⟨l.toArray⟩ := by
+  have := List.toList_data_toByteArray (l := l)
+  cases h : l.toByteArray with
+  | mk data =>
+    rw [h] at this
+    simp at this
+    subst this
+    simp
+
+/-- `String::from_utf8(s.as_bytes()) = s` (from core's `List.utf8Decode?_utf8Encode`) -/
+theorem utf8Decode_utf8 (s : Str) : utf8Decode? (utf8 s) = some s := by
+  have := List.utf8Decode?_utf8Encode (l := s)
+  simp only [List.utf8Encode, toByteArray_eq] at this
+  simp [utf8Decode?, utf8, this]
+
+theorem ofNat_high (n : Nat) (h1 : 128 ≤ n) (h2 : n < 256) : UInt8.ofNat n ≠ 34 ∧ UInt8.ofNat n ≠ 92 := by
+  constructor <;> intro h <;> {
+    have := congrArg UInt8.toNat h
+    simp only [UInt8.toNat_ofNat'] at this
+    have h3 : n % 256 = n := Nat.mod_eq_of_lt h2
+    simp at this
+    omega }
+
+/-- the UTF-8 bytes of a character above `~` are neither `"` nor `\` -/
+theorem utf8EncodeChar_high (c : Char) (h : 127 ≤ c.toNat) :
+    ∀ x ∈ String.utf8EncodeChar c, x ≠ 34 ∧ x ≠ 92 := by
+  intro x hx
+  simp only [String.utf8EncodeChar, Char.toNat_val] at hx
+  split at hx
+  · simp at hx; subst hx
+    have : c.toNat = 127 := by omega
+    rw [this]; decide
+  · split at hx
+    · simp only [List.mem_cons, List.not_mem_nil, or_false] at hx
+      rcases hx with rfl | rfl <;> apply ofNat_high <;> omega
+    · split at hx
+      · simp only [List.mem_cons, List.not_mem_nil, or_false] at hx
+        rcases hx with rfl | rfl | rfl <;> apply ofNat_high <;> omega
+      · simp only [List.mem_cons, List.not_mem_nil, or_false] at hx
+        rcases hx with rfl | rfl | rfl | rfl <;> apply ofNat_high <;> omega
+
+/-- raw bytes (neither quote nor backslash) go to the accumulator, one loop turn each -/
+theorem readStringLoop_raw (bs : List Byte) (hbs : ∀ x ∈ bs, x ≠ 34 ∧ x ≠ 92) (tail : List Byte)
+    (r : Reader) (b : Byte) (hr : At r b (bs ++ tail)) (fuel : Nat) (acc : List Byte) :
+    ∃ r' b', readStringLoop (fuel + bs.length) acc r = readStringLoop fuel (acc ++ bs) r' ∧
+      At r' b' tail := by
+  induction bs generalizing r b acc with
+  | nil => exact ⟨r, b, by simp, by simpa using hr⟩
+  | cons x xs ih =>
+    obtain ⟨r1, hn, hr1⟩ := next_at_cons (show At r b (x :: (xs ++ tail)) from hr)
+    obtain ⟨r2, b2, h2, hr2⟩ := ih (fun y hy => hbs y (by simp [hy])) r1 x hr1 (acc ++ [x])
+    refine ⟨r2, b2, ?_, hr2⟩
+    have hx := hbs x (by simp)
+    rw [show fuel + (x :: xs).length = (fuel + xs.length) + 1 by simp; omega, readStringLoop,
+      PM.bind_ok hn]
+    simp only [hx.1, hx.2, if_false]
+    simpa using h2
+
+theorem printEscape_some (c e : Char) (h : printEscape c = some e) :
+    utf8 ['\\', e] = [92, byteOf e] ∧ simpleEscape (byteOf e) = some (byteOf c) ∧
+      String.utf8EncodeChar c = [byteOf c] := by
+  unfold printEscape at h
+  repeat' split at h
+  all_goals first
+    | (cases h; subst_vars; exact ⟨rfl, rfl, rfl⟩)
+    | cases h
+
+theorem printEscape_none (c : Char) (h : printEscape c = none) : c ≠ '"' ∧ c ≠ '\\' := by
+  constructor <;> intro hc <;> subst hc <;> simp [printEscape] at h
+
+theorem char_eq_of_toNat (c : Char) (n : Nat) (h : c.toNat = n) : c = Char.ofNat n := by
+  rw [← h, Char.ofNat_toNat]
+
+theorem byteOf_eq_iff (c : Char) (h : c.toNat < 128) (n : Nat) (hn : n < 128) :
+    byteOf c = UInt8.ofNat n → c.toNat = n := by
+  intro hb
+  have := congrArg UInt8.toNat hb
+  simp only [byteOf, UInt8.toNat_ofNat'] at this
+  omega
+
+/-! #### `\uXXXX` -/
+
+theorem toDigits16_1 (n : Nat) (h : n < 16) : Nat.toDigits 16 n = [Nat.digitChar n] :=
+  Nat.toDigits_of_lt_base h
+
+theorem toDigits16_2 (n : Nat) (h1 : 16 ≤ n) (h : n < 256) :
+    Nat.toDigits 16 n = [Nat.digitChar (n / 16), Nat.digitChar (n % 16)] := by
+  rw [Nat.toDigits_of_base_le (by decide) h1, toDigits16_1 (n / 16) (by omega)]; rfl
+
+theorem toDigits16_3 (n : Nat) (h1 : 256 ≤ n) (h : n < 4096) :
+    Nat.toDigits 16 n = [Nat.digitChar (n / 256), Nat.digitChar (n / 16 % 16), Nat.digitChar (n % 16)] := by
+  rw [Nat.toDigits_of_base_le (by decide) (by omega), toDigits16_2 (n / 16) (by omega) (by omega)]
+  simp [Nat.div_div_eq_div_mul]
+
+theorem toDigits16_4 (n : Nat) (h1 : 4096 ≤ n) (h : n < 65536) :
+    Nat.toDigits 16 n = [Nat.digitChar (n / 4096), Nat.digitChar (n / 256 % 16),
+      Nat.digitChar (n / 16 % 16), Nat.digitChar (n % 16)] := by
+  rw [Nat.toDigits_of_base_le (by decide) (by omega), toDigits16_3 (n / 16) (by omega) (by omega)]
+  simp [Nat.div_div_eq_div_mul]
+
+/-- `{:04x}` of a 16-bit number: exactly four digits -/
+theorem hex4_eq (n : Nat) (h : n < 65536) :
+    hex4 n = [Nat.digitChar (n / 4096), Nat.digitChar (n / 256 % 16),
+      Nat.digitChar (n / 16 % 16), Nat.digitChar (n % 16)] := by
+  unfold hex4
+  by_cases h1 : n < 16
+  · have e1 : n / 4096 = 0 := by omega
+    have e2 : n / 256 % 16 = 0 := by omega
+    have e3 : n / 16 % 16 = 0 := by omega
+    have e4 : n % 16 = n := by omega
+    simp [toDigits16_1 n h1, e1, e2, e3, e4, List.replicate]
+  · by_cases h2 : n < 256
+    · have e1 : n / 4096 = 0 := by omega
+      have e2 : n / 256 % 16 = 0 := by omega
+      have e3 : n / 16 % 16 = n / 16 := by omega
+      simp [toDigits16_2 n (by omega) h2, e1, e2, e3, List.replicate]
+    · by_cases h3 : n < 4096
+      · have e1 : n / 4096 = 0 := by omega
+        have e2 : n / 256 % 16 = n / 256 := by omega
+        simp [toDigits16_3 n (by omega) h3, e1, e2]
+      · simp [toDigits16_4 n (by omega) h]
+
+theorem hexVal_digitChar : ∀ d, d < 16 →
+    String.utf8EncodeChar (Nat.digitChar d) = [byteOf (Nat.digitChar d)] ∧
+    hexVal (byteOf (Nat.digitChar d)) = some d := by
+  decide
+
+theorem readHex4_digits (ds : List Nat) (hds : ∀ d ∈ ds, d < 16) (tail : List Byte)
+    (r : Reader) (b : Byte) (hr : At r b (utf8 (ds.map Nat.digitChar) ++ tail)) (acc : Nat) :
+    ∃ r' b', readHex4 ds.length acc r = (.ok (ds.foldl (fun a d => a * 16 + d) acc), r') ∧
+      At r' b' tail := by
+  induction ds generalizing r b acc with
+  | nil => exact ⟨r, b, rfl, by simpa [utf8_nil] using hr⟩
+  | cons d ds ih =>
+    obtain ⟨e1, e2⟩ := hexVal_digitChar d (hds d (by simp))
+    simp only [List.map_cons, utf8_cons, e1, List.cons_append, List.nil_append] at hr
+    obtain ⟨r1, hn, hr1⟩ := next_at_cons hr
+    obtain ⟨r2, b2, h2, hr2⟩ := ih (fun y hy => hds y (by simp [hy])) r1 _ hr1 (acc * 16 + d)
+    refine ⟨r2, b2, ?_, hr2⟩
+    simp only [List.length_cons, readHex4]
+    rw [PM.bind_ok hn]
+    simp only [e2]
+    simpa using h2
+
+theorem charOfNat_toNat (c : Char) : charOfNat? c.toNat = some c := by
+  have hv : c.toNat.isValidChar := c.valid
+  simp only [charOfNat?, hv, dite_true, Option.some.injEq]
+  apply Char.ext
+  show UInt32.ofNat c.toNat = c.val
+  apply UInt32.toNat_inj.1
+  have := c.val.toNat_lt
+  simp [UInt32.toNat_ofNat']
+  simpa using this
+
+/-- the characters `print_string` can write so that `read_string` reads them back:
+without `utf8Strings` only the Basic Multilingual Plane (`{:04x}` gives five digits above it) -/
+def CharOK (o : JsonOpts) (c : Char) : Prop := c.toNat ≤ 0xFFFF ∨ o.utf8Strings = true
+
+def StrOK (o : JsonOpts) (s : Str) : Prop := ∀ c ∈ s, CharOK o c
+
+/-- `StrOK` is satisfiable, also without `utf8Strings` -/
+example : StrOK {} ['a', '"', '\n', 'é', '\x7f'] := by
+  intro c hc
+  simp only [List.mem_cons, List.not_mem_nil, or_false] at hc
+  rcases hc with rfl | rfl | rfl | rfl | rfl <;> exact Or.inl (by decide)
+
+example : StrOK { utf8Strings := true } [Char.ofNat 0x1F603] := fun _ _ => Or.inr rfl
+
+/-- one printed character is read back as its UTF-8 bytes, in at most as many loop turns as it has bytes -/
+theorem readStringLoop_char (o : JsonOpts) (c : Char) (hc : CharOK o c) (tail : List Byte) :
+    ∃ k, k ≤ (utf8 (printChar o c)).length ∧
+      ∀ (r : Reader) (b : Byte), At r b (utf8 (printChar o c) ++ tail) → ∀ (fuel : Nat) (acc : List Byte),
+      ∃ r' b', readStringLoop (fuel + k) acc r = readStringLoop fuel (acc ++ String.utf8EncodeChar c) r' ∧
+        At r' b' tail := by
+  unfold printChar
+  cases hpe : printEscape c with
+  | some e =>
+    obtain ⟨e1, e2, e3⟩ := printEscape_some c e hpe
+    simp only [e1]
+    refine ⟨1, by simp, ?_⟩
+    intro r b hr fuel acc
+    obtain ⟨r1, hn1, hr1⟩ := next_at_cons (show At r b (92 :: (byteOf e :: tail)) from hr)
+    obtain ⟨r2, hn2, hr2⟩ := next_at_cons hr1
+    refine ⟨r2, _, ?_, hr2⟩
+    rw [readStringLoop, PM.bind_ok hn1]
+    simp only [show ¬ ((92 : Byte) = 34) by decide, if_false, if_true]
+    rw [PM.bind_ok hn2]
+    simp only [e2, e3]
+  | none =>
+    simp only []
+    split
+    · -- raw
+      rename_i hraw
+      have hb : ∀ x ∈ String.utf8EncodeChar c, x ≠ 34 ∧ x ≠ 92 := by
+        rcases hraw with ⟨h1, h2⟩ | ⟨_, h2⟩
+        · rw [char_le_iff] at h1 h2
+          have h2' : c.toNat ≤ 126 := h2
+          have hlt : c.toNat < 128 := by omega
+          have hne := printEscape_none c hpe
+          rw [utf8EncodeChar_ascii c hlt]
+          intro x hx
+          simp only [List.mem_cons, List.not_mem_nil, or_false] at hx
+          subst hx
+          constructor
+          · intro hq
+            exact hne.1 (char_eq_of_toNat c 34 (byteOf_eq_iff c hlt 34 (by decide) hq))
+          · intro hq
+            exact hne.2 (char_eq_of_toNat c 92 (byteOf_eq_iff c hlt 92 (by decide) hq))
+        · rw [char_lt_iff] at h2
+          have h2' : 126 < c.toNat := h2
+          exact utf8EncodeChar_high c (by omega)
+      simp only [utf8_cons, utf8_nil, List.append_nil]
+      refine ⟨_, Nat.le_refl _, ?_⟩
+      intro r b hr fuel acc
+      exact readStringLoop_raw _ hb tail r b hr fuel acc
+    · -- \\uXXXX
+      rename_i hraw
+      have hle : c.toNat < 65536 := by
+        rcases hc with h | h
+        · exact Nat.lt_succ_of_le h
+        · have : ¬ ('~' < c) := fun hlt => hraw (Or.inr ⟨h, hlt⟩)
+          rw [char_lt_iff] at this
+          have : ¬ (126 < c.toNat) := this
+          omega
+      rw [hex4_eq c.toNat hle]
+      have hu : utf8 ('\\' :: 'u' :: [Nat.digitChar (c.toNat / 4096), Nat.digitChar (c.toNat / 256 % 16),
+          Nat.digitChar (c.toNat / 16 % 16), Nat.digitChar (c.toNat % 16)]) =
+          92 :: 117 :: utf8 ([c.toNat / 4096, c.toNat / 256 % 16, c.toNat / 16 % 16, c.toNat % 16].map
+            Nat.digitChar) := by
+        rw [utf8_cons, utf8_cons]; rfl
+      rw [hu]
+      refine ⟨1, by simp, ?_⟩
+      intro r b hr fuel acc
+      obtain ⟨r1, hn1, hr1⟩ := next_at_cons (show At r b (92 :: (117 :: _ ++ tail)) from hr)
+      obtain ⟨r2, hn2, hr2⟩ := next_at_cons hr1
+      obtain ⟨r3, b3, hh, hr3⟩ := readHex4_digits
+        [c.toNat / 4096, c.toNat / 256 % 16, c.toNat / 16 % 16, c.toNat % 16]
+        (by intro d hd; simp only [List.mem_cons, List.not_mem_nil, or_false] at hd; omega)
+        tail r2 _ hr2 0
+      have hfold : ([c.toNat / 4096, c.toNat / 256 % 16, c.toNat / 16 % 16, c.toNat % 16].foldl
+          (fun a d => a * 16 + d) 0) = c.toNat := by
+        simp only [List.foldl_cons, List.foldl_nil]; omega
+      rw [hfold] at hh
+      simp only [List.length_cons, List.length_nil, Nat.zero_add, Nat.reduceAdd] at hh
+      refine ⟨r3, b3, ?_, hr3⟩
+      rw [readStringLoop, PM.bind_ok hn1]
+      simp only [show ¬ ((92 : Byte) = 34) by decide, if_false, if_true]
+      rw [PM.bind_ok hn2]
+      simp only [show simpleEscape 117 = none by decide, if_true]
+      rw [PM.bind_ok hh]
+      simp only [charOfNat_toNat]
+
+/-- the printed characters of a string, as bytes -/
+def strBody (o : JsonOpts) (s : Str) : List Byte := utf8 (s.flatMap (printChar o))
+
+theorem strBody_cons (o : JsonOpts) (c : Char) (s : Str) :
+    strBody o (c :: s) = utf8 (printChar o c) ++ strBody o s := by
+  simp [strBody, utf8_append]
+
+theorem utf8_printString (o : JsonOpts) (s : Str) :
+    utf8 (printString o s) = 34 :: (strBody o s ++ [34]) := by
+  simp only [printString, utf8_cons, utf8_append, strBody]; rfl
+
+theorem readStringLoop_body (o : JsonOpts) (s : Str) (hs : StrOK o s) (tail : List Byte) :
+    ∃ k, k ≤ (strBody o s).length ∧
+      ∀ (r : Reader) (b : Byte), At r b (strBody o s ++ tail) → ∀ (fuel : Nat) (acc : List Byte),
+      ∃ r' b', readStringLoop (fuel + k) acc r = readStringLoop fuel (acc ++ utf8 s) r' ∧
+        At r' b' tail := by
+  induction s with
+  | nil =>
+    refine ⟨0, by simp, ?_⟩
+    intro r b hr fuel acc
+    exact ⟨r, b, by simp [utf8_nil], by simpa [strBody, utf8_nil] using hr⟩
+  | cons c s ih =>
+    obtain ⟨k2, hk2, h2⟩ := ih (fun d hd => hs d (by simp [hd]))
+    obtain ⟨k1, hk1, h1⟩ := readStringLoop_char o c (hs c (by simp)) (strBody o s ++ tail)
+    refine ⟨k2 + k1, by rw [strBody_cons]; simp; omega, ?_⟩
+    intro r b hr fuel acc
+    rw [strBody_cons, List.append_assoc] at hr
+    obtain ⟨r1, b1, e1, hr1⟩ := h1 r b hr (fuel + k2) acc
+    obtain ⟨r2, b2, e2, hr2⟩ := h2 r1 b1 hr1 fuel (acc ++ String.utf8EncodeChar c)
+    refine ⟨r2, b2, ?_, hr2⟩
+    rw [← Nat.add_assoc, e1, e2, utf8_cons, List.append_assoc]
+
+/-- M3: `read_string` (the opening quote is the current byte) reads back what `print_string` wrote,
+and leaves the reader ready for what follows the closing quote -/
+theorem readString_print (o : JsonOpts) (s : Str) (hs : StrOK o s) (rest : List Byte) (r : Reader)
+    (b : Byte) (hr : At r b (strBody o s ++ 34 :: rest)) (fuel : Nat) (hf : (strBody o s).length < fuel) :
+    ∃ r', readStringLoop fuel [] r = (.ok s, r') ∧ Ready r' rest := by
+  obtain ⟨k, hk, h⟩ := readStringLoop_body o s hs (34 :: rest)
+  obtain ⟨r1, b1, e1, hr1⟩ := h r b hr (fuel - k - 1 + 1) []
+  obtain ⟨r2, hn2, hr2⟩ := next_at_cons hr1
+  obtain ⟨x, r3, hn3, hr3⟩ := next_at_ready hr2
+  refine ⟨r3, ?_, hr3⟩
+  rw [show fuel = fuel - k - 1 + 1 + k by omega, e1, readStringLoop, PM.bind_ok hn2]
+  simp only [if_true]
+  rw [PM.bind_ok hn3]
+  simp [utf8Decode_utf8]
 
 end Jawk.RT
